@@ -606,6 +606,53 @@ func (s *goSpec) expr(e *SExpr) string {
 			case "fresh":
 				return "true"
 			}
+			// a definition: expand it (parameters are substituted textually as Go expressions)
+			if d, ok := s.g.eng.cs.Defines[f.Name]; ok && len(d.Params) == len(e.Args)-1 {
+				saved := map[string]string{}
+				had := map[string]bool{}
+				var vals []string
+				for _, a := range e.Args[1:] {
+					vals = append(vals, "("+s.expr(a)+")")
+				}
+				for i, p := range d.Params {
+					saved[p], had[p] = s.params[p], false
+					if _, ok := s.params[p]; ok {
+						had[p] = true
+					}
+					s.params[p] = vals[i]
+				}
+				r := s.expr(d.Body)
+				for _, p := range d.Params {
+					if had[p] {
+						s.params[p] = saved[p]
+					} else {
+						delete(s.params, p)
+					}
+				}
+				return "(" + r + ")"
+			}
+		}
+	case KQuant:
+		// forall i int :: lo <= i && i < hi ==> body   (a bounded range: a loop)
+		if e.Op == "forall" && e.Args[0].Kind == KBinary && e.Args[0].Op == "==>" {
+			g, body := e.Args[0].Args[0], e.Args[0].Args[1]
+			if g.Kind == KBinary && g.Op == "&&" && g.Args[0].Kind == KBinary && g.Args[1].Kind == KBinary {
+				lo, hi := g.Args[0], g.Args[1]
+				if lo.Op == "<=" && lo.Args[1].Kind == KIdent && lo.Args[1].Name == e.Name &&
+					hi.Op == "<" && hi.Args[0].Kind == KIdent && hi.Args[0].Name == e.Name {
+					old, hadIt := s.params[e.Name]
+					iv := fmt.Sprintf("qi%d", len(s.olds)+s.nold+len(s.params))
+					s.params[e.Name] = iv
+					b := s.expr(body)
+					l, h := s.expr(lo.Args[0]), s.expr(hi.Args[1])
+					if hadIt {
+						s.params[e.Name] = old
+					} else {
+						delete(s.params, e.Name)
+					}
+					return fmt.Sprintf("func() bool { for %s := int(%s); %s < int(%s); %s++ { if !(%s) { return false } }; return true }()", iv, l, iv, h, iv, b)
+				}
+			}
 		}
 	}
 	s.ok = false
@@ -704,6 +751,18 @@ func Replay(eng *Engine, vc *VC, cfg checkCfg, scratch string) *ReplayResult {
 	}
 	var body []string
 	check := ""
+	// the input must satisfy the function's preconditions (the model of a quantified
+	// precondition need not): they are checked at run time before the call
+	if c != nil {
+		for _, rq := range c.Requires {
+			gs := &goSpec{g: g, params: params, nres: nres, ok: true}
+			ex := gs.expr(rq.Expr)
+			if !gs.ok || len(gs.olds) > 0 {
+				return &ReplayResult{Why: "no generic replay: the precondition `" + rq.Src + "` has no executable form (a replay driver is needed)"}
+			}
+			body = append(body, fmt.Sprintf("if !(%s) { fmt.Println(\"QEDVC-REPLAY: PRECONDITION-NOT-MET\"); return }", ex))
+		}
+	}
 	switch vc.Kind {
 	case "panic", "pre":
 		// confirmed iff the real call panics
